@@ -43,14 +43,14 @@ type LexSpec struct {
 	SynLits []string
 }
 
-func C(r rune) LTerm        { return LTerm{Kind: LChar, Lo: r, Hi: r} }
-func R(lo, hi rune) LTerm   { return LTerm{Kind: LRange, Lo: lo, Hi: hi} }
-func Dot() LTerm            { return LTerm{Kind: LDot} }
-func Ref(n string) LTerm    { return LTerm{Kind: LRef, Ref: n} }
-func Opt(p LPat) LTerm      { return LTerm{Kind: LOpt, Sub: &p} }
-func Rep(p LPat) LTerm      { return LTerm{Kind: LRep, Sub: &p} }
-func Grp(p LPat) LTerm      { return LTerm{Kind: LGroup, Sub: &p} }
-func Seq(ts ...LTerm) LPat  { return LPat{Alts: [][]LTerm{ts}} }
+func C(r rune) LTerm       { return LTerm{Kind: LChar, Lo: r, Hi: r} }
+func R(lo, hi rune) LTerm  { return LTerm{Kind: LRange, Lo: lo, Hi: hi} }
+func Dot() LTerm           { return LTerm{Kind: LDot} }
+func Ref(n string) LTerm   { return LTerm{Kind: LRef, Ref: n} }
+func Opt(p LPat) LTerm     { return LTerm{Kind: LOpt, Sub: &p} }
+func Rep(p LPat) LTerm     { return LTerm{Kind: LRep, Sub: &p} }
+func Grp(p LPat) LTerm     { return LTerm{Kind: LGroup, Sub: &p} }
+func Seq(ts ...LTerm) LPat { return LPat{Alts: [][]LTerm{ts}} }
 func Alt(ps ...LPat) LPat {
 	var out LPat
 	for _, p := range ps {
